@@ -47,3 +47,15 @@ claim("C19", "model_checking",
       "Trusted: TLC; BLAKE3 collision resistance is assumed. Exhaustive within <=3 items / data <=2 bytes over a small alphabet; rich types sampled by relation.",
       "TLC model checking of Framing.tla/Commit.tla + byte-exact vector conformance and collision search on the real transcript hash",
       "DESIGN.md §5 C19")
+
+claim("C20", "exploration",
+      "StartParams.tla holds, per start function, the parameter record over abstract value classes, the validity predicate implied by the statement and the bad-value lattice; TLC enumerates every single invalid parameter and every pair with the expected outcome and checks consistency of the predicate (nominal accepted, monotonicity, every clause exercised). Each case is executed on the real start function through NewMultiHandler / NewTwoPartyHandler inside recover(); a wrongly accepted start is then RUN with honest peers in the simulator to see whether it crashes or stalls them.",
+      "Trusted: TLC, the mapping of abstract classes to concrete Go values. Pairs that contain an already failing single are attributed to the single.",
+      "TLC-enumerated parameter lattice with expected outcomes (StartParams.tla) + replay of every case on all 17 real start functions",
+      "DESIGN.md §5 C20")
+
+claim("C06", "model_checking",
+      "Handler.tla is checked exhaustively for 3 parties with one Byzantine broadcaster sending two individually valid payloads (every delivery order, every choice of whose view the equivocator mimics): NoSplit, BlameSound, EchoNamesNobody hold, and TLC rejects the model without the echo comparison. FaultCat.tla enumerates every (non-final broadcast round, equivocator, assignment of honest parties to payloads); each scenario is run on the real protocols (toy shapes, FROST keygen/sign/refresh, Taproot, CMP) with TWO real instances of the equivocator that diverge at that round, under random schedules; every honest API call is recorded and the traces are validated line by line against Handler.tla with NoSplit evaluated in every state, plus a direct check that honest finishers stored identical broadcasts.",
+      "Trusted: TLC; real echo hashes are mapped to abstract view hashes by the harness (a real collision between different views is itself reported). Exhaustive for 3 parties in the model; real protocols by scenario x sampled schedules.",
+      "TLC model checking of Handler.tla (equivocation cfg) + TLC-enumerated equivocation scenarios run on real protocols + trace validation",
+      "DESIGN.md §3.1, §3.2, §5 C06")
